@@ -34,11 +34,19 @@ META = P + "ParameterizedMetaclass"
 PARAMETERS = P + "Parameters"
 
 
+LINEAR = {"order": ["A", "B", "C"], "mro": {"A": ["A"], "B": ["B", "A"], "C": ["C", "B", "A"]},
+          "bases": {"A": [], "B": ["A"], "C": ["B"]}, "declare": [("A", "p"), ("A", "q"), ("B", "q")]}
+# a diamond: D(B, E); p is declared on A and overridden on E only, so attribute lookup on D finds E's p (MRO D, B, E, A)
+DIAMOND = {"order": ["A", "B", "E", "D"], "mro": {"A": ["A"], "B": ["B", "A"], "E": ["E", "A"], "D": ["D", "B", "E", "A"]},
+           "bases": {"A": [], "B": ["A"], "E": ["A"], "D": ["B", "E"]}, "declare": [("A", "p"), ("A", "q"), ("E", "p")]}
+
+
 class World:
-    def __init__(self, ctx):
+    def __init__(self, ctx, shape=None):
         self.ctx = ctx
+        self.shape = shape or LINEAR
         self.classes = {}
-        self.order = ["A", "B", "C"]
+        self.order = list(self.shape["order"])
         self.n_param = 0
         for nme in self.order:
             priv = Obj("private_of_" + nme, params={})
@@ -51,11 +59,10 @@ class World:
         obj.attrs["__mro__"] = (obj,)
         for i, nme in enumerate(self.order):
             cls = self.classes[nme]
-            cls.attrs["__mro__"] = tuple(self.classes[m] for m in reversed(self.order[: i + 1])) + (obj,)
-            cls.attrs["__bases__"] = (self.classes[self.order[i - 1]],) if i else (obj,)
-        self.declare("A", "p", "p@A")
-        self.declare("A", "q", "q@A")
-        self.declare("B", "q", "q@B")
+            cls.attrs["__mro__"] = tuple(self.classes[m] for m in self.shape["mro"][nme]) + (obj,)
+            cls.attrs["__bases__"] = tuple(self.classes[m] for m in self.shape["bases"][nme]) or (obj,)
+        for cn, pn in self.shape["declare"]:
+            self.declare(cn, pn, "%s@%s" % (pn, cn))
 
     def new_param(self, label, default=None):
         self.n_param += 1
@@ -67,8 +74,9 @@ class World:
         self.classes[cname].attrs["__dict__"][name] = p
 
     def mro(self, cls):               # most derived first
-        i = self.order.index(cls.attrs["__name__"])
-        return [self.classes[n] for n in reversed(self.order[: i + 1])]
+        if cls.attrs["__name__"] not in self.order:
+            return [cls]              # `object`
+        return [self.classes[n] for n in self.shape["mro"][cls.attrs["__name__"]]]
 
     def lookup(self, cls, name):
         for c in self.mro(cls):
@@ -90,8 +98,10 @@ class World:
         if fn == "classlist" and args:
             return list(reversed(self.mro(args[0])))
         if fn == "descendents" and args:
-            i = self.order.index(args[0].attrs["__name__"])
-            return [self.classes[n] for n in self.order[i:]]
+            if args[0].attrs["__name__"] not in self.order:
+                return [args[0]]
+            me = args[0].attrs["__name__"]
+            return [self.classes[n] for n in self.order if me in self.shape["mro"][n]]
         if fn == "type.__setattr__" and len(args) == 3:
             args[0].attrs["__dict__"][args[1]] = args[2]
             return None
@@ -99,6 +109,8 @@ class World:
             c = Obj("copy of " + args[0].name, **dict(args[0].attrs))
             return c
         if fn == "isinstance" and len(args) == 2:
+            if isinstance(args[1], Obj) and args[1].name == "ParameterizedMetaclass":
+                return isinstance(args[0], Obj) and args[0].attrs.get("__cls__") == META
             return isinstance(args[0], Obj) and args[0].attrs.get("__kind__") == "Parameter"
         if fn.endswith(".__set__") and len(args) == 2:
             recv = getattr(it, "current_receiver", None)
@@ -160,17 +172,19 @@ class World:
         return p
 
 
-def ops():
+def ops(shape=None):
+    shape = shape or LINEAR
+    names = shape["order"]
     out = []
-    for c in "ABC":
+    for c in names:
         out.append(("read", c, None))
-    for c in "ABC":
+    for c in names:
         out.append(("set", c, "p"))
-    for c in "BC":
+    for c in names[1:]:
         out.append(("set", c, "q"))
-    for c in "AB":
+    for c in names[:2]:
         out.append(("newparam", c, "p"))
-    for c in "ABC":
+    for c in names[:3]:
         out.append(("add", c, "r"))
     return out
 
@@ -180,14 +194,15 @@ def describe(op):
     return {"read": "%s.param (read)" % c, "set": "%s.%s = value" % (c, n), "newparam": "%s.%s = Parameter()" % (c, n), "add": "%s.param.add_parameter('%s', ...)" % (c, n)}[k]
 
 
-def model(ctx, depth):
+def model(ctx, depth, shape=None):
+    shape = shape or LINEAR
     n, bad = 0, []
-    allops = ops()
+    allops = ops(shape)
     for L in range(1, depth + 1):
         for hist in itertools.product(allops, repeat=L):
             if hist[-1][0] == "read":
                 continue        # covered as a prefix of longer histories and by the final reads
-            w = World(ctx)
+            w = World(ctx, shape)
             tr = []
             try:
                 for op in hist:
@@ -204,13 +219,12 @@ def model(ctx, depth):
                         if gov is None or gov.attrs["default"] is not v:
                             bad.append((list(tr), "the Parameter that attribute lookup finds on %s for `%s` does not hold the assigned value" % (c, nme)))
                             break
-                        ci = w.order.index(c)
-                        for x in w.order[:ci]:        # ancestors keep object and default
+                        for x in [y for y in w.order if y != c and c not in w.shape["mro"][y]]:        # classes that do not inherit from c keep object and default
                             for m in ("p", "q", "r"):
                                 now = w.lookup(w.classes[x], m)
                                 if (now, now.attrs["default"] if now else None) != before[(x, m)] and not (now is before[(x, m)][0] and now is None):
                                     if now is not before[(x, m)][0] or now.attrs["default"] is not before[(x, m)][1]:
-                                        bad.append((list(tr), "the class-level set on %s changed what %s.%s gives (an ancestor)" % (c, x, m)))
+                                        bad.append((list(tr), "the class-level set on %s changed what %s.%s gives (%s does not inherit from %s)" % (c, x, m, x, c)))
                         if bad:
                             break
                     elif kind == "newparam":
@@ -242,10 +256,13 @@ def model(ctx, depth):
 def report(ctx, rule):
     depth = 3          # 1830 histories, about 2 s; the intermediate-override cases need three steps
     n, bad = model(ctx, depth)
+    if not bad:
+        n2, bad = model(ctx, 2, DIAMOND)          # multiple inheritance: the lookup order is the MRO, not "bases, then own"
+        n += n2
     f = ctx.repo.func(META + ".__setattr__")
     ctx.abstract_cases += n
     if not bad:
-        ctx.ok(rule, f, f.node, "namespace model: %d histories (up to %d class-level operations on A <- B <- C: namespace reads, value sets, Parameter sets, add_parameter): "
+        ctx.ok(rule, f, f.node, "namespace model: %d histories (up to %d class-level operations on A <- B <- C, up to 2 on the diamond D(B, E) over A: namespace reads, value sets, Parameter sets, add_parameter): "
                                 "every .param lookup is the Parameter attribute access finds; a class-level set reaches exactly the classes it should" % (n, depth))
     else:
         tr, what = bad[0]
